@@ -348,3 +348,57 @@ pub proof fn lemma_seg_node_props(a: AV, s: SV, offset: int, size: int)
 {
   lemma_seg_node_bounds(offset, size);
 }
+
+// ---- lemmas for the slow paths -------------------------------------------------------------------------------
+
+pub proof fn lemma_in_list_remove(l: Seq<Node>, i: int)
+  requires 0 <= i < l.len()
+  ensures forall|b: int| #[trigger] in_list(l.remove(i), b) ==> in_list(l, b)
+{
+  let l1 = l.remove(i);
+  assert forall|b: int| #[trigger] in_list(l1, b) implies in_list(l, b) by {
+    let k = choose|k: int| 0 <= k < l1.len() && in_node(#[trigger] l1[k], b);
+    lemma_rem_index(l, i, k);
+    if k < i { assert(in_node(l[k], b)); } else { assert(in_node(l[k + 1], b)); }
+  }
+}
+
+/// two consecutive frames: second step only touches [lo,hi) (inside old segment x) or segments of l1 (all inside segments of l)
+pub proof fn lemma_frame_compose(l: Seq<Node>, l1: Seq<Node>, b0: Seq<u8>, b1: Seq<u8>, b2: Seq<u8>, lo: int, hi: int, x: int)
+  requires
+    frame_ok(l, b0, b1, 0, 0), frame_ok(l1, b1, b2, lo, hi),
+    forall|b: int| #[trigger] in_list(l1, b) ==> in_list(l, b),
+    0 <= x < l.len(), lo >= hi || (l[x].0 as int <= lo && hi <= node_end(l[x])),
+  ensures frame_ok(l, b0, b2, 0, 0)
+{
+  assert forall|b: int| 0 <= b < b0.len() implies b2[b] == b0[b] || 0 <= b < 0 || #[trigger] in_list(l, b) by {
+    if lo <= b < hi { assert(in_node(l[x], b)); }
+    if b2[b] != b1[b] && !(lo <= b < hi) { assert(in_list(l1, b)); }
+  }
+}
+
+pub proof fn lemma_clear_of_list_insert(l: Seq<Node>, j: int, n: Node, lo: int, hi: int)
+  requires clear_of_list(l, lo, hi), 0 <= j <= l.len(), node_end(n) <= lo || hi <= n.0 as int
+  ensures clear_of_list(l.insert(j, n), lo, hi)
+{
+  let l2 = l.insert(j, n);
+  assert forall|k: int| 0 <= k < l2.len() implies node_end(#[trigger] l2[k]) <= lo || hi <= l2[k].0 as int by {
+    lemma_ins_index(l, j - 1, n, k);
+    if k != j { let x = l[old_idx(j - 1, k)]; }
+  }
+}
+
+/// headers of every node are outside [lo,hi) when the whole nodes are
+pub proof fn lemma_clear_headers(l: Seq<Node>, lo: int, hi: int)
+  requires clear_of_list(l, lo, hi)
+  ensures forall|k: int| 0 <= k < l.len() ==> ((#[trigger] l[k]).0 as int + 8 <= lo || hi <= l[k].0 as int)
+{
+  assert forall|k: int| 0 <= k < l.len() implies ((#[trigger] l[k]).0 as int + 8 <= lo || hi <= l[k].0 as int) by {
+    let x = l[k];
+    assert(node_end(x) <= lo || hi <= x.0 as int);
+  }
+}
+
+pub proof fn lemma_first_idx_bounds(l: Seq<Node>, val: u32, asc: bool)
+  ensures 0 <= first_idx(l, val, asc) <= l.len()
+{ lemma_first_idx_props_from(l, val, asc, 0); }
